@@ -762,8 +762,9 @@ namespace riddle
 
                 do
                 {
-                    ns.emplace_back(*static_cast<id_token *>(tk));
-                    tk = next();
+                    if (!match(ID_ID))
+                        error("expected identifier..");
+                    ns.emplace_back(*static_cast<id_token *>(tks[pos - 2]));
                     if (tk->sym == EQ_ID)
                     {
                         tk = next();
